@@ -409,7 +409,7 @@ func (e *MetaCDC) Create(req *request.CreateRequest) (resp *request.CreateRespon
 	defer func() {
 		log.Info("create request done")
 		if err != nil {
-			log.Warn("fail to create cdc task", zap.Any("req", req), zap.Error(err))
+			log.Warn("fail to create cdc task", zap.String("req", GetRequestInfo(req)), zap.Error(err))
 		}
 	}()
 	if err = e.validCreateRequest(req); err != nil {
